@@ -214,11 +214,19 @@ def make_a64(rng, name, shape=None, force=None):
         return f
     if shape == "frameless":
         f.can_call = False
-        n = 16 * rng.range(1, 64) if rng.chance(2, 3) else rng.choice([0x1000, 0x2000, 0x3000, 0xf000])     # 4 KiB and more: sub / add with lsl #12
-        f.emit(I("sub", n), "prologue", a_sub_sp(n))
+        n = 16 * rng.range(1, 64) if rng.chance(2, 3) else rng.choice([0x1000, 0x2000, 0x3000, 0xf000, 0x1230, 0x2010, 0x5ff0])     # 4 KiB and more: sub / add with lsl #12
+        if force and "alloc" in force:
+            n = force["alloc"]
+        # sizes that are not a multiple of 4 KiB take two instructions, in either order
+        parts = [n] if n < 4096 or n % 4096 == 0 else [n & ~0xfff, n & 0xfff]
+        if len(parts) == 2 and (force or {}).get("lofirst", rng.chance(1, 2)):
+            parts.reverse()
+        for part in parts:
+            f.emit(I("sub", part), "prologue", a_sub_sp(part))
         for _ in range(rng.range(1, 4)):
             f.emit(I("fill"), "body", rng.choice(A_FILL))
-        f.emit(I("add", n), "epilogue", a_add_sp(n))
+        for part in reversed(parts):
+            f.emit(I("add", part), "epilogue", a_add_sp(part))
         if rng.chance(1, 3):
             f.emit(I("b"), "epilogue", a_word(0x14000000 | rng.below(1 << 26)))       # tail call
         else:
@@ -386,6 +394,8 @@ def make_program(rng, arch, nfuncs=8):
         # the longest prologue of the grammar: pacibsp, all five callee-saved pairs, the frame record (then add x29, sub sp)
         funcs.append(make_a64(rng, "f%d" % len(funcs), "frame-pairs", force=dict(signing=True, npairs=5, subfirst=False)))
         funcs.append(make_a64(rng, "f%d" % len(funcs), "frame-pairs", force=dict(signing=rng.chance(1, 2), npairs=5, subfirst=True)))
+        # a frameless function whose 4 KiB+ frame is allocated low part first (the shifted `sub` is then met mid-prologue)
+        funcs.append(make_a64(rng, "f%d" % len(funcs), "frameless", force=dict(alloc=rng.choice([0x1230, 0x2010, 0x5ff0]), lofirst=True)))
         # every program has one function that ends in an authenticated tail call (arm64e)
         funcs.append(make_a64(rng, "f%d" % len(funcs), "frame-pairs", force=dict(signing=True, npairs=rng.range(1, 2), authtail=True)))
     if arch == "x86":
